@@ -313,6 +313,59 @@ func rulePipelineStateWriters(c *core.Ctx) {
 			sites = append(sites, s)
 		}
 	}
+	// accepted sites: in a function that hands a channel to PipelineHandler.Run (or in a helper it
+	// calls, the channel and the pipeline id being the caller's), the call sits in
+	// `for v := range <that channel>` and stores v for <the handler's pipeline>.ID
+	accepted := map[*ast.CallExpr]bool{}
+	isStore := func(f *types.Func) bool { return f.Name() == "StorePipelineState" }
+	for _, d := range ix.Decls {
+		if d.Decl.Body == nil || relPkg(d.Pkg.PkgPath) != pkgReplic || strings.HasSuffix(c.Prog().Rel(d.Decl.Pos()), "_test.go") {
+			continue
+		}
+		runs := callsTo(d.Pkg.TypesInfo, d.Decl.Body, methodOn("PipelineHandler", "Run"))
+		if len(runs) == 0 {
+			continue
+		}
+		envs := scopeEnvsDepth(c, d, 3)
+		root := envs[0]
+		wantID := ""
+		for _, nh := range callsTo(d.Pkg.TypesInfo, d.Decl.Body, func(f *types.Func) bool { return f.Name() == "NewPipelineHandler" }) {
+			if len(nh.Args) > 0 {
+				wantID = root.origin(nh.Args[0]) + ".ID"
+			}
+		}
+		for _, run := range runs {
+			if len(run.Args) != 2 {
+				continue
+			}
+			ch := root.rootObj(run.Args[1])
+			if ch == nil {
+				continue
+			}
+			for _, e := range envs {
+				for _, st := range callsTo(e.info, e.d.Decl.Body, isStore) {
+					if len(st.Args) != 3 {
+						continue
+					}
+					ast.Inspect(e.d.Decl.Body, func(x ast.Node) bool {
+						r, isR := x.(*ast.RangeStmt)
+						if !isR || !(r.Body.Pos() <= st.Pos() && st.End() <= r.Body.End()) || r.Key == nil {
+							return true
+						}
+						keyID, isID := r.Key.(*ast.Ident)
+						if !isID || e.rootObj(r.X) != ch || e.rootObj(st.Args[2]) != e.info.ObjectOf(keyID) {
+							return true
+						}
+						id := e.origin(st.Args[1])
+						if (wantID != "" && id == wantID) || (wantID == "" && strings.HasSuffix(id, ".ID")) {
+							accepted[st] = true
+						}
+						return true
+					})
+				}
+			}
+		}
+	}
 	n := 0
 	for _, s := range sites {
 		if s.Encl == nil {
@@ -324,30 +377,7 @@ func rulePipelineStateWriters(c *core.Ctx) {
 		}
 		n++
 		key := enclKey(pkgReplic, s.Encl)
-		ok := false
-		if s.Encl.Name.Name == "startPipeline" && len(s.Call.Args) == 3 {
-			info := s.Pkg.TypesInfo
-			// inside `for v := range subscription` where subscription is the channel passed to Run
-			ast.Inspect(s.Encl.Body, func(x ast.Node) bool {
-				r, isR := x.(*ast.RangeStmt)
-				if !isR || !(r.Body.Pos() <= s.Call.Pos() && s.Call.End() <= r.Body.End()) || r.Key == nil {
-					return true
-				}
-				chID, isID := r.X.(*ast.Ident)
-				if !isID || types.ExprString(s.Call.Args[2]) != types.ExprString(r.Key) || types.ExprString(s.Call.Args[1]) != "pipeline.ID" {
-					return true
-				}
-				for _, run := range callsTo(info, s.Encl.Body, methodOn("PipelineHandler", "Run")) {
-					if len(run.Args) == 2 {
-						if a, isA := run.Args[1].(*ast.Ident); isA && info.ObjectOf(a) == info.ObjectOf(chID) {
-							ok = true
-						}
-					}
-				}
-				return true
-			})
-		}
-		c.Check(ok, "WMC/pipeline-state", key+":StorePipelineState", pos(c, s.Call), "only the subscription goroutine, with values notified by Run", "last_log_id is persisted from "+s.Encl.Name.Name+" with a value that was not notified by the pipeline after an acknowledged export: the persisted id can exceed what the exporter acknowledged")
+		c.Check(accepted[s.Call], "WMC/pipeline-state", key+":StorePipelineState", pos(c, s.Call), "only the subscription loop, with values notified by Run", "last_log_id is persisted from "+s.Encl.Name.Name+" with a value that was not notified by the pipeline after an acknowledged export: the persisted id can exceed what the exporter acknowledged")
 	}
 	c.Floor("WMC/pipeline-state", "StorePipelineState call sites", n, 1)
 	// SQL: one UPDATE setting last_log_id to the argument on the row id = ?
@@ -358,11 +388,11 @@ func rulePipelineStateWriters(c *core.Ctx) {
 			set, where := false, false
 			for _, cl := range st.Clauses {
 				for _, alt := range cl.SQL {
-					norm := strings.Join(strings.Fields(strings.ToLower(alt)), " ")
-					if cl.Method == "Set" && norm == "last_log_id = ?" && len(cl.Args) == 1 && types.ExprString(cl.Args[0]) == "lastLogID" {
+					norm := normSimplePredicate(alt)
+					if cl.Method == "Set" && norm == "last_log_id=?" && len(cl.Args) == 1 && argIsParam(c, d, cl.Args[0], 2) {
 						set = true
 					}
-					if cl.Method == "Where" && norm == "id = ?" && len(cl.Args) == 1 && types.ExprString(cl.Args[0]) == "id" {
+					if cl.Method == "Where" && norm == "id=?" && len(cl.Args) == 1 && argIsParam(c, d, cl.Args[0], 1) {
 						where = true
 					}
 				}
@@ -535,4 +565,47 @@ func ruleReplicationSeesLogsInIDOrder(c *core.Ctx) {
 	for _, v := range conf {
 		c.Check(stmtMayRead(locked, v), "LOCK/replication-order", "HASH_LOGS="+v, "", "InsertLog holds the per-ledger lock until commit", fmt.Sprintf("with HASH_LOGS=%s InsertLog allocates the log id without holding the per-ledger lock until commit (it takes it only for %v): writer A draws id 10, writer B draws 11 and commits, the pipeline exports up to 11 and persists that position, A commits — log 10 is never exported", v, locked))
 	}
+}
+
+// normSimplePredicate lower-cases a one-comparison SQL fragment, removes all white space and any
+// redundant parentheses around the whole of it ("( id = ? )" -> "id=?").
+func normSimplePredicate(sql string) string {
+	n := strings.Join(strings.Fields(strings.ToLower(sql)), "")
+	for len(n) >= 2 && n[0] == '(' && n[len(n)-1] == ')' {
+		depth, closesAtEnd := 0, true
+		for i := 0; i < len(n); i++ {
+			switch n[i] {
+			case '(':
+				depth++
+			case ')':
+				depth--
+				if depth == 0 && i != len(n)-1 {
+					closesAtEnd = false
+				}
+			}
+		}
+		if !closesAtEnd {
+			break
+		}
+		n = n[1 : len(n)-1]
+	}
+	return n
+}
+
+// argIsParam: x is (a plain use of, or a local copy of) the i-th parameter of d.
+func argIsParam(c *core.Ctx, d *astx.DeclInfo, x ast.Expr, i int) bool {
+	obj := newOriginEnv(c, d).rootObj(x)
+	if obj == nil || d.Decl.Type.Params == nil {
+		return false
+	}
+	k := 0
+	for _, fl := range d.Decl.Type.Params.List {
+		for _, nm := range fl.Names {
+			if k == i && d.Pkg.TypesInfo.ObjectOf(nm) == obj {
+				return true
+			}
+			k++
+		}
+	}
+	return false
 }
